@@ -105,6 +105,17 @@ func getBlk(name string) *blk {
 		}
 	}
 	pick := alpha[(int(number)*2+branch*3+1)%len(alpha)]
+	// The first heights are chosen so that class knowledge matters across a reorg (the real feeder data source decides
+	// per fetched block which class definitions the node still needs, from the node's head state): the main branch
+	// declares S1 at height 1 and uses it at height 2; the branch forking at height 1 declares S1 one block LATER.
+	if want, ok := map[string]string{"0": "deployA", "00": "declareS1", "01": "empty", "000": "deployB+touch", "010": "declareS1", "0100": "deployB+touch",
+		"011": "declareS1", "001": "declareS2+deployC"}[name]; ok {
+		for _, a := range alpha {
+			if a.Name == want {
+				pick = a
+			}
+		}
+	}
 	spec := pick.Spec
 	spec.Timestamp += uint64(branch) // siblings always differ
 	e, err := chain.Build(pe, spec)
@@ -402,6 +413,98 @@ func (s *source) PreConfirmedBlockLatest(context.Context, string, uint64) (stark
 func (s *source) Class(context.Context, *felt.Felt) (core.ClassDefinition, error) {
 	s.infra.Store("unexpected Class call")
 	return nil, errScripted
+}
+
+// snData adapts the scripted source to starknetdata.StarknetData so that the Synchronizer is given the REAL
+// feederGatewayDataSource (sync/data_source.go: BlockByNumber = StateUpdateWithBlock + fetchUnknownClasses against the
+// node's head state). One scripted call per block fetch as before (StateUpdateWithBlock parks exactly like
+// BlockByNumber did); class definitions are served at once from the universe's class table (a class request is not a
+// scheduling point; it cannot fail).
+type snData struct {
+	src *source
+	mu  stdsync.Mutex
+	cls map[felt.Felt]core.ClassDefinition
+}
+
+type cbHolderKey struct{}
+
+// viaFeeder is what the Synchronizer holds: the real feeder data source, with the Persisted channel of each block it
+// returns replaced by the one of the scripted answer behind it (the harness watches that channel).
+type viaFeeder struct {
+	jsync.DataSource
+}
+
+func (v viaFeeder) BlockByNumber(ctx context.Context, n uint64) (jsync.CommittedBlock, error) {
+	var scripted *jsync.CommittedBlock
+	cb, err := v.DataSource.BlockByNumber(context.WithValue(ctx, cbHolderKey{}, &scripted), n)
+	if err == nil && scripted != nil {
+		cb.Persisted = scripted.Persisted
+	}
+	return cb, err
+}
+
+func (d *snData) StateUpdateWithBlock(ctx context.Context, n uint64) (*core.StateUpdate, *core.Block, error) {
+	cb, err := d.src.BlockByNumber(ctx, n)
+	if err != nil {
+		return nil, nil, err
+	}
+	if h, ok := ctx.Value(cbHolderKey{}).(**jsync.CommittedBlock); ok {
+		*h = &cb
+	}
+	d.mu.Lock()
+	for h, c := range cb.NewClasses {
+		d.cls[h] = c
+	}
+	d.mu.Unlock()
+	return cb.StateUpdate, cb.Block, nil
+}
+
+func (d *snData) BlockHeaderLatest(ctx context.Context) (core.Header, error) {
+	h, err := d.src.BlockHeaderLatest(ctx)
+	if err != nil {
+		return core.Header{}, err
+	}
+	return *h, nil
+}
+
+func (d *snData) Class(_ context.Context, h *felt.Felt) (core.ClassDefinition, error) {
+	d.mu.Lock()
+	defer d.mu.Unlock()
+	if c, ok := d.cls[*h]; ok {
+		return c, nil
+	}
+	for _, b := range uniByName {
+		if c, ok := b.e.Classes[*h]; ok {
+			return c, nil
+		}
+	}
+	d.src.infra.Store("class " + h.String() + " requested but not in the universe")
+	return nil, errScripted
+}
+
+func (d *snData) BlockByNumber(context.Context, uint64) (*core.Block, error) {
+	d.src.infra.Store("unexpected StarknetData.BlockByNumber call")
+	return nil, errScripted
+}
+func (d *snData) BlockLatest(context.Context) (*core.Block, error) {
+	d.src.infra.Store("unexpected StarknetData.BlockLatest call")
+	return nil, errScripted
+}
+func (d *snData) Transaction(context.Context, *felt.Felt) (core.Transaction, error) {
+	d.src.infra.Store("unexpected StarknetData.Transaction call")
+	return nil, errScripted
+}
+func (d *snData) StateUpdate(context.Context, uint64) (*core.StateUpdate, error) {
+	d.src.infra.Store("unexpected StarknetData.StateUpdate call")
+	return nil, errScripted
+}
+func (d *snData) PreConfirmedBlockByNumber(context.Context, uint64, string, uint64) (starknet.PreConfirmedUpdate, error) {
+	d.src.infra.Store("unexpected PreConfirmedBlockByNumber call")
+	return nil, errScripted
+}
+func (d *snData) PreConfirmedBlockLatest(context.Context, string, uint64) (starknet.PreConfirmedUpdate, uint64, error) {
+	d.src.infra.Store("unexpected PreConfirmedBlockLatest call")
+	return nil, 0, errScripted
 }
 
 // ---------------------------------------------------------------------------------------------------------------
@@ -1237,7 +1340,7 @@ func replay(t *testing.T, c *config, path []evt, converge bool) (res result) {
 			w.log = append(w.log, o)
 			w.mu.Unlock()
 		})
-		w.syn = jsync.New(w.bc, w.src, log.NewNopZapLogger(), 0, false, w.fdb)
+		w.syn = jsync.New(w.bc, viaFeeder{jsync.NewFeederGatewayDataSource(w.bc, &snData{src: w.src, cls: map[felt.Felt]core.ClassDefinition{}})}, log.NewNopZapLogger(), 0, false, w.fdb)
 		w.syn.WithListener(&jsync.SelectiveListener{
 			OnSyncStepDoneCb: func(op string, n uint64, _ time.Duration) {
 				if op == jsync.OpStore {
